@@ -90,7 +90,7 @@ def parseStep (d : DEnv) (toks : List String) : Option Op :=
   | ["x", b] => do let b ← b.toNat?; if b < d.nB then pure (.reset b) else none
   | ["c", b, via, t] => do
     let b ← b.toNat?; let v ← viaCode via; let t ← t.toNat?
-    if chk b t v none then pure (.cancel b (v * 1000 + t) t) else none
+    if chk b t v none then pure (.cancel b (v * 1000 + t)) else none
   | kind :: b :: via :: t :: k :: rest => do
     let b ← b.toNat?; let v ← viaCode via; let t ← t.toNat?; let k ← k.toNat?
     let o ← match rest with
@@ -99,9 +99,9 @@ def parseStep (d : DEnv) (toks : List String) : Option Op :=
       | _ => none
     if !chk b t v o then none
     match kind with
-    | "a" => if k < 4 then pure (.apply b (v * 1000 + t) t (if isMethod t then 4 + k else k) o) else none
-    | "r" => pure (.ret b (v * 1000 + t) t o)
-    | "w" => if (isMethod t && v != 2) || t == 5 then none else pure (.ret b (v * 1000 + t) t o)
+    | "a" => if k < 4 then pure (.apply b (v * 1000 + t) (if isMethod t then 4 + k else k) o) else none
+    | "r" => pure (.ret b (v * 1000 + t) o)
+    | "w" => if (isMethod t && v != 2) || t == 5 then none else pure (.ret b (v * 1000 + t) o)
     | _ => none
   | _ => none
 
